@@ -585,3 +585,29 @@ pub fn big_classics() -> ListFamily {
     ];
     ListFamily { name: "big classics/u0 (1000+ derivatives)".into(), u, items, shallow: 0 }
 }
+
+/// the complement of every binary level-2 program of the quick core (a level-3 layer: complement interacts with
+/// every rewriting shortcut; the thorough tier has all unary operators over all of level 2 instead)
+pub struct CompOverLevel2 {
+    pub base: LevelFamily,
+    pub off: usize,
+}
+impl Family for CompOverLevel2 {
+    fn name(&self) -> String {
+        "complement of every binary level-2 program of the quick core".into()
+    }
+    fn universe(&self) -> &Universe {
+        self.base.universe()
+    }
+    fn len(&self) -> usize {
+        self.base.len() - self.off
+    }
+    fn get(&self, i: usize) -> P {
+        P::Comp(Rc::new(self.base.get(self.off + i)))
+    }
+}
+pub fn comp_over_level2() -> CompOverLevel2 {
+    let base = core_quick();
+    let off = base.l1.len() + base.l1.len() * base.uops.len();
+    CompOverLevel2 { base, off }
+}
